@@ -425,6 +425,8 @@ ApplyAt(st0, idx, c) ==
   CASE c.t = "kv"    -> ApplyKV(st, idx, c)
     [] c.t = "sess"  -> IF c.op = "create" THEN SessionCreate(st, idx, c)
                         ELSE IF c.op = "destroy" THEN [st |-> DeleteSession(st, idx, c.id), res |-> Nil]
+                        \* Session.Renew re-arms the leader's TTL timer: no replicated state changes, no error even for an unknown id
+                        ELSE IF c.op = "renew" THEN [st |-> st0, res |-> Nil]
                         ELSE [st |-> st, res |-> Err]
     [] c.t = "reg"   -> Register(st, idx, c)
     [] c.t = "dereg" -> Deregister(st, idx, c)
@@ -432,6 +434,11 @@ ApplyAt(st0, idx, c) ==
     [] c.t = "pq"    -> IF c.op = "set" THEN PQSet(st, idx, c) ELSE PQDelete(st, idx, c)
     [] c.t = "txn"   -> ApplyTxn(st, idx, c)
     [] OTHER         -> [st |-> st, res |-> Err]
+
+\* Session TTL (session_ttl.go): the invalidation of a session by the leader's timer is the command "destroy via ttl".  The
+\* contract is a lower bound only - never before the TTL has elapsed since the creation or the last renewal (the leader
+\* in fact waits twice as long); TTLMayExpire is the enabling condition of that timer step.
+TTLMayExpire(ttl_ms, age_ms) == age_ms >= ttl_ms
 
 \* Lock delay.  DelayExpires is the timer of state/delay.go; EndpointApply is what KVS.Apply / Txn.Apply (kvs_endpoint.go
 \* kvsPreApply) put in front of Raft: a lock on a key inside its window is refused WITHOUT a Raft write - a direct lock
